@@ -11,13 +11,20 @@ mkdir -p bin evidence replays
 SEED="${VERIF_SEED:-1}"
 EVDIR="${VERIF_EVIDENCE_DIR:-$ROOT/evidence}"; RPDIR="${VERIF_REPLAYS_DIR:-$ROOT/replays}"; mkdir -p "$EVDIR" "$RPDIR"
 
+# the repository under test: /repo's working tree, unless a snapshot of it is named (vp run --with-repo sets VP_RUN_REPO)
+REPO="${VERIF_REPO:-${VP_RUN_REPO:-/repo}}"
+MODFLAG=""
+if [ "$REPO" != "/repo" ]; then
+  sed "s#=> /repo\$#=> $REPO#" "$ROOT/sim/go.mod" > "$ROOT/bin/alt.mod" && cp "$ROOT/sim/go.sum" "$ROOT/bin/alt.sum" && MODFLAG="-modfile=$ROOT/bin/alt.mod"
+fi
+
 if [ "$ID" = "C20" ]; then
-  ( cd "$ROOT/pricesim" && ./build.sh /repo ) >/tmp/verif-build-C20.log 2>&1 || { echo "BUILD FAILED (pricesim)"; tail -30 /tmp/verif-build-C20.log; exit 2; }
+  ( cd "$ROOT/pricesim" && ./build.sh "$REPO" ) >/tmp/verif-build-C20.log 2>&1 || { echo "BUILD FAILED (pricesim)"; tail -30 /tmp/verif-build-C20.log; exit 2; }
   if [ "$MODE" = "--replay" ]; then exec "$ROOT/pricesim/bin/pricesim" replay "${3:?file}"; fi
   exec "$ROOT/pricesim/bin/pricesim" run --tier "$MODE" --seed "$SEED" --evidence "$EVDIR/C20.json" --replays "$RPDIR"
 fi
 
-( cd "$ROOT/sim" && go build -tags verif -o "$ROOT/bin/layersim" ./cmd/layersim ) >/tmp/verif-build-$ID.log 2>&1 || { echo "BUILD FAILED (layersim against /repo working tree)"; tail -30 /tmp/verif-build-$ID.log; exit 2; }
+( cd "$ROOT/sim" && go build $MODFLAG -tags verif -o "$ROOT/bin/layersim" ./cmd/layersim ) >/tmp/verif-build-$ID.log 2>&1 || { echo "BUILD FAILED (layersim against /repo working tree)"; tail -30 /tmp/verif-build-$ID.log; exit 2; }
 
 if [ "$MODE" = "--replay" ]; then
   exec "$ROOT/bin/layersim" replay "${3:?file}"
